@@ -59,7 +59,18 @@ def one(xs, what):
 
 
 def returns(fn):
-    return [n.value for n in ast.walk(fn) if isinstance(n, ast.Return) and n.value is not None]
+    """return expressions of fn itself (nested function definitions and lambdas excluded)"""
+    out = []
+
+    def walk(n, top):
+        if not top and isinstance(n, (ast.FunctionDef, ast.AsyncFunctionDef, ast.Lambda)):
+            return
+        if isinstance(n, ast.Return) and n.value is not None:
+            out.append(n.value)
+        for c in ast.iter_child_nodes(n):
+            walk(c, False)
+    walk(fn, True)
+    return out
 
 
 def strip_doc(body):
